@@ -13,15 +13,23 @@
         {
             if n > 0 { lemma_count_resolved(ms, n - 1); }
         }
-        // R29 helpers: the four iterator-adapter chains of resolve_encoding (filter/count, enumerate/filter/map/
-        // collect, map/min, filter/copied/collect) as wrappers whose ASSUMED contracts are what those std adapters do
+        // R29 helpers: the four iterator-adapter chains of resolve_encoding become wrappers that take the chain's
+        // closures UNCHANGED as arguments. Each wrapper REQUIRES that the closure computes what the chain needs (so
+        // a changed closure body fails its own contract) and ENSURES, as an ASSUMED contract, what the std adapters
+        // (filter/count, enumerate/filter/map/collect, map/min, filter/copied/collect) then compute.
         #[verifier::external_body]
-        pub fn verif_count_resolved(matches: &Vec<asm::InstructionMatch>) -> (r: usize)
+        pub fn verif_count_resolved<F: Fn(&&asm::InstructionMatch) -> bool>(matches: &Vec<asm::InstructionMatch>, f: F) -> (r: usize)
+            requires forall|m: &&asm::InstructionMatch, b: bool| call_ensures(f, (m,), b) ==> b == match_resolved(**m)
             ensures r == count_resolved(matches@, matches@.len() as int)
         { unimplemented!() }
         /// (index, encoding) of every resolved match, in order
         #[verifier::external_body]
-        pub fn verif_resolved_encodings<'a>(matches: &'a Vec<asm::InstructionMatch>) -> (r: Vec<(usize, &'a util::BigInt)>)
+        pub fn verif_resolved_encodings<'a, F: Fn(&(usize, &'a asm::InstructionMatch)) -> bool, G: Fn((usize, &'a asm::InstructionMatch)) -> (usize, &'a util::BigInt)>(
+                matches: &'a Vec<asm::InstructionMatch>, keep: F, to_pair: G) -> (r: Vec<(usize, &'a util::BigInt)>)
+            requires
+                forall|m: &(usize, &asm::InstructionMatch), b: bool| call_ensures(keep, (m,), b) ==> b == match_resolved(*m.1),
+                forall|m: (usize, &asm::InstructionMatch)| match_resolved(*m.1) ==> call_requires(to_pair, (m,)),
+                forall|m: (usize, &asm::InstructionMatch), p: (usize, &util::BigInt)| call_ensures(to_pair, (m,), p) ==> p.0 == m.0 && *p.1 == m.1.encoding->Resolved_0,
             ensures
                 r@.len() == count_resolved(matches@, matches@.len() as int),
                 forall|i: int| 0 <= i < r@.len() ==> (#[trigger] r@[i]).0 < matches@.len() && match_resolved(matches@[r@[i].0 as int]) && *r@[i].1 == matches@[r@[i].0 as int].encoding->Resolved_0,
@@ -29,16 +37,23 @@
                 forall|i: int, j: int| 0 <= i < j < r@.len() ==> (#[trigger] r@[i]).0 < (#[trigger] r@[j]).0,
         { unimplemented!() }
         #[verifier::external_body]
-        pub fn verif_min_size(es: &Vec<(usize, &util::BigInt)>) -> (r: usize)
-            requires es@.len() > 0, forall|i: int| 0 <= i < es@.len() ==> (#[trigger] es@[i]).1.size is Some
+        pub fn verif_min_size<F: Fn(&(usize, &util::BigInt)) -> usize>(es: &Vec<(usize, &util::BigInt)>, size_of: F) -> (r: usize)
+            requires
+                es@.len() > 0,
+                forall|i: int| 0 <= i < es@.len() ==> (#[trigger] es@[i]).1.size is Some,
+                forall|e: &(usize, &util::BigInt)| e.1.size is Some ==> call_requires(size_of, (e,)),
+                forall|e: &(usize, &util::BigInt), n: usize| call_ensures(size_of, (e,), n) ==> n == e.1.size->0,
             ensures
                 exists|i: int| 0 <= i < es@.len() && (#[trigger] es@[i]).1.size->0 == r,
                 forall|i: int| 0 <= i < es@.len() ==> r <= (#[trigger] es@[i]).1.size->0,
         { unimplemented!() }
         /// the entries whose size is `size`, in order
         #[verifier::external_body]
-        pub fn verif_with_size<'a>(es: &Vec<(usize, &'a util::BigInt)>, size: usize) -> (r: Vec<(usize, &'a util::BigInt)>)
-            requires forall|i: int| 0 <= i < es@.len() ==> (#[trigger] es@[i]).1.size is Some
+        pub fn verif_with_size<'a, F: Fn(&&(usize, &'a util::BigInt)) -> bool>(es: &Vec<(usize, &'a util::BigInt)>, size: usize, keep: F) -> (r: Vec<(usize, &'a util::BigInt)>)
+            requires
+                forall|i: int| 0 <= i < es@.len() ==> (#[trigger] es@[i]).1.size is Some,
+                forall|e: &&(usize, &util::BigInt)| e.1.size is Some ==> call_requires(keep, (e,)),
+                forall|e: &&(usize, &util::BigInt), b: bool| call_ensures(keep, (e,), b) ==> b == (e.1.size->0 == size),
             ensures
                 forall|i: int| 0 <= i < r@.len() ==> es@.contains(#[trigger] r@[i]) && r@[i].1.size->0 == size,
                 forall|i: int| 0 <= i < es@.len() && (#[trigger] es@[i]).1.size->0 == size ==> r@.contains(es@[i]),
